@@ -484,11 +484,11 @@ func main() {
 	// ---- corpus: witnesses of F-bitvector-equals and constructor corners (every seed)
 	eq := []jop{{Op: "equals"}}
 	for _, c := range []jcase{
-		{Ctor: "frombytes", L: 9, B: "ff010000", Ops: eq},                                   // DESIGN.md witness: 9 bits over 4 bytes
-		{Ctor: "frombytes", L: 8, B: "ff00", Ops: eq},                                       // no partial byte, one slack byte
-		{Ctor: "frombytes", L: 9, B: "ffff00", Ops: eq},                                     // partial byte taken from the slack byte
-		{Ctor: "frombytes", L: 9, B: "ff00ff", Ops: eq},                                     // cell 8 clear, slack all ones
-		{Ctor: "frombytes", L: 14, B: "ff1f", Ops: eq},                                      // the repo's own (wrong) test vector: cell 13 clear
+		{Ctor: "frombytes", L: 9, B: "ff010000", Ops: eq}, // DESIGN.md witness: 9 bits over 4 bytes
+		{Ctor: "frombytes", L: 8, B: "ff00", Ops: eq},     // no partial byte, one slack byte
+		{Ctor: "frombytes", L: 9, B: "ffff00", Ops: eq},   // partial byte taken from the slack byte
+		{Ctor: "frombytes", L: 9, B: "ff00ff", Ops: eq},   // cell 8 clear, slack all ones
+		{Ctor: "frombytes", L: 14, B: "ff1f", Ops: eq},    // the repo's own (wrong) test vector: cell 13 clear
 		{Ctor: "frombytes", L: 14, B: "ff3f", Ops: append(eq, jop{Op: "unset", I: 1}, eq[0])},
 		{Ctor: "frombytes", L: 1, B: "01000000", Ops: eq},
 		{Ctor: "frombytes", L: 512, B: strings.Repeat("ff", 64) + "000000", Ops: append(eq, jop{Op: "unset", I: 511}, eq[0])},
